@@ -209,12 +209,28 @@ def _something_dropped(k, cond):
         if a == SELF_NEXT:
             return "S"
         ko = k.kfold(a)
-        if ko is not None and ko.kind == "COMPR" and ko.term == ("e",) and ko.source == SELF_NEXT \
+        if ko is not None and ko.kind == "COMPR" and ko.term in (("e",), ("tup", (("p",), ("t",)))) and ko.source == SELF_NEXT \
                 and _alive_filter_verdict(_dead_set_filter(k.ctx, k, ko.filter) or ko.filter) is None:
             return "F"
         if ko is not None and ko.kind == "COMPR" and ko.source == SELF_NEXT and ko.filter == simp(("cmp", "==", SF(REACH), C(0))):
             return "D"
         return None
+    # not (True if a else b)  ==  not a and not b;  a conjunction: one conjunct says it, the others follow from it
+    if cond[0] == "not" and cond[1][0] == "ite" and cond[1][2] == TRUE:
+        cond = simp(("and", (simp(("not", cond[1][1])), simp(("not", cond[1][3])))))
+    if cond[0] == "and":
+        vs = [(_something_dropped(k, p), p) for p in cond[1]]
+        yes = [p for v, p in vs if v is True]
+        rest = [p for v, p in vs if v is not True]
+        nonempty = (("truthy", SELF_NEXT), simp(("cmp", "!=", ("call", "len", (SELF_NEXT,), ()), C(0))), simp(("cmp", "<", C(0), ("call", "len", (SELF_NEXT,), ()))))
+        if yes and all(p in nonempty for p in rest):
+            return True               # a dropped successor implies a non-empty successor list
+        return None if not any(v is False for v, _ in vs) else False
+    # `0 in [reach of every successor]`: some successor is dead, i.e. the survivor list is shorter
+    if cond[0] == "cmp" and cond[1] == "in" and is_const(cond[2]) and cond[2][1] == 0 and not isinstance(cond[2][1], bool):
+        le = k.listexpr(cond[3])
+        if le is not None and le[0] == SELF_NEXT and le[1] == TRUE and le[2] == SF(REACH) and le[3]:
+            return True
     while cond[0] == "truthy" and (cond[1][0] == "truthy" or (cond[1][0] == "call" and cond[1][1] == "bool" and len(cond[1][2]) == 1)):
         cond = ("truthy", cond[1][1] if cond[1][0] == "truthy" else cond[1][2][0])
     if cond[0] == "truthy" and kind(("call", "len", (cond[1],), ())) == "D":
@@ -603,7 +619,7 @@ def r5_dispatch(ctx, chk, rule="C03.5"):
         chk.undecided(rule, f.where(), "%d loops in Solver.prune_paths" % len(loops))
         return
     L = loops[0]
-    if L.source != slist or not L.whole or L.has_break or L.has_return or L.cont != FALSE:
+    if L.source != slist or not L.whole or L.has_break or L.has_return:
         chk.violation(rule, f.where(L.node), "Solver.prune_paths does not visit the whole state list", expected="for state in self.state_list",
                       found=norm_stmt(L.node), construct="Solver.prune_paths coverage")
         return
